@@ -260,6 +260,55 @@ def _symbolic_for_inner(ex, node, it, st, ctx, lo, hi, elem, lo_t, hi_t, v, dry,
     # ---------------- invariant route: discard dry-run obligations, they are regenerated under the invariant
     del ctx.obligations[nobl:]
     ctx.names_seen = names_seen_before
+    # The dry run started from the pre-loop values: a loop-carried scalar that is concrete there (a counter set to 0
+    # before the loop) decides branches concretely and hides the writes of the other branches, which would then be
+    # neither havocked nor part of the loop's label.  Re-run the body from a havocked state until the write log is stable.
+    for _ in range(4):
+        probe = st.fork()
+        probe.log = WriteLog()
+        probe.log.depth = len(st.frames)
+        probe.next_cell = [st.next_cell[0] + 300000]
+        for name in sorted(log.var_writes):
+            if name in probe.frames[-1]:
+                probe.frames[-1][name] = havoc_like(ex, probe, probe.frames[-1][name], "stab")
+        for key in log.heap_writes:
+            cur = probe.heap.get(key)
+            if cur is None:
+                try:
+                    cur = ex.heap_initial_for_merge(probe, key)
+                except Exception:
+                    continue
+            if not isinstance(cur, CellRef):
+                probe.heap[key] = havoc_like(ex, probe, cur, "stab")
+        for cid in written_cids:
+            if cid in probe.cells:
+                havoc_cell(ex, probe, cid, "stab", set(log.len_changes))
+        probe.pc.append(rng)
+        nobl3 = len(ctx.obligations)
+        seen3 = dict(ctx.names_seen)
+        try:
+            ex.assign_target(node.target, elem(v) if elem else v, probe)
+            probe.log.var_writes = set()
+            probe.log.write_texts = []
+            ex.exec_block(node.body, probe)
+        finally:
+            del ctx.obligations[nobl3:]
+            ctx.names_seen = seen3
+        plog = probe.log
+        new_cids = [c for c, _ in plog.writes if c not in written_cids and c in st.cells]
+        grew = (not plog.var_writes <= log.var_writes or not plog.heap_writes <= log.heap_writes
+                or not plog.len_changes <= log.len_changes or bool(new_cids)
+                or not set(plog.write_texts) <= set(log.write_texts))
+        log.var_writes |= plog.var_writes
+        log.heap_writes |= plog.heap_writes
+        log.len_changes |= plog.len_changes
+        log.write_texts.extend(t for t in plog.write_texts if t not in log.write_texts)
+        log.writes.extend(w for w in plog.writes if w[0] in st.cells)
+        for c in new_cids:
+            if c not in written_cids:
+                written_cids.append(c)
+        if not grew:
+            break
     saved_no_let = ctx.no_let
     ctx.no_let = 0        # the invariant route never substitutes its iteration constant
     try:
@@ -339,7 +388,7 @@ def invariant_for(ex, node, st, lo, hi, elem, log, written_cids, tvars, reason):
     written_vars = sorted(log.var_writes)
     len_changes = set(log.len_changes)
     # cells whose length changes are written cells too
-    for cid in len_changes:
+    for cid in sorted(len_changes):     # cell ids grow in creation order: deterministic W order
         if cid not in written_cids:
             written_cids.append(cid)
     written_cids = [c for c in written_cids if c in st.cells]
